@@ -1352,7 +1352,7 @@ def corr_at(ctx, rng):
     alphabet = b'(),"  aA1+:;=?\r\n\\' + bytes([0, 0xFF])
     cases = [b'', b'(', b')', b'"', b',', b'(1,2),"a"', b'1,(2,(3,4)),5', b'a(', b'a"', b'"(",")"', b'","', b'""', b'(1', b'1)',
              b'(' * 40 + b')' * 40, b'"abc', b' 1 , 2 ', b'"a b",c d']
-    for _ in range(ctx.n(500, 6000)):
+    for _ in range(ctx.n(350, 6000)):
         n = rng.choice([0, 1, 2, 3, 4, 5, 6, 8, 12, 20, 40])
         if rng.chance(1, 5):
             cases.append(rng.bytes(n))
@@ -1697,7 +1697,7 @@ def corr_sdp(ctx, rng):
     cases = [b'', b'\x00', b'\x35\x00', b'\x35\x03\x19\x11\x01', b'\x19\x11', b'\x08', b'\x09\x00\x01', b'\x28\x01',
              b'\x25\x05ab', b'\x45\x02\x68\x69', b'\x45\x02\xff\xfe', b'\x36\xff\xff\x00', b'\x37\xff\xff\xff\xff\x00',
              nested_sdp(32), nested_sdp(33), overrun_sdp(2, b'\x00'), b'\x0d\x03\x01\x02\x03', b'\x10\x80', b'\x11\x80\x00']
-    for _ in range(ctx.n(900, 9000)):
+    for _ in range(ctx.n(700, 9000)):
         cases.append(gen_sdp_element(rng))
     exprs = [f'element_from_bytes true sdp_max_nesting {coq_bytes(b)}' for b in cases]
     model = yield exprs
@@ -2301,7 +2301,10 @@ def run(ctx):
         'layer mutated by truncate/extend/bit-flip/byte-set/length-tamper/splice, one PDU of every registered class, '
         'random bytes, SDP nesting/overrun shapes, ACL fragment-flag permutations, malformed AT lines) on Host.on_packet, '
         'PacketParser.feed_data, every fixed CID on both connections and both devices, the open SDP/RFCOMM/AVDTP/AVCTP '
-        'channels and the HFP AT stream; each under a step and depth budget, followed by reference requests. A campaign '
+        'channels and the HFP AT stream; plus ~130 stateful sequences of protocol-VALID frames carrying hostile negotiated '
+        'values (RFCOMM PN frame size/credits, LE and enhanced credit-based mtu/mps/credits, classic Configure MTU and ERTM '
+        'window/MPS, ATT Exchange MTU, SDP maximum counts, AVDTP SEIDs/capability lengths) each followed by traffic that makes '
+        'the local echo services use the negotiated value; each under a step and depth budget, followed by reference requests. A campaign '
         'case is non-trivial when the injection raised or made the device send something; distinct by target and bytes.')
     ctx.assumptions += [
         'timers do not fire during a case (the event loop is run to idle, never slept); wall-clock time-outs are not exercised',
@@ -2322,7 +2325,7 @@ def run(ctx):
     ctx.extra['recorded_hci_packets'] = [len(x) for x in seeds['hci']]
     cases = load_corpus() + directed_cases() + stateful_cases(ctx.rng.fork('stateful'), ctx.quick())
     gen = Gen(ctx.rng.fork('campaign'), seeds)
-    for _ in range(ctx.n(2200, 30000)):
+    for _ in range(ctx.n(1500, 30000)):
         cases.append(gen.case())
     campaign(ctx, cases)
     ctx.log('campaign done:', ctx.dist.get('campaign.cases'), 'cases,', len(ctx.violations), 'violations')
